@@ -1,14 +1,18 @@
 """C19 - user-supplied names cannot reach files outside the data directory.
 
-Model: spec/Paths.tla - a name is a sequence of segment classes; every API operation that derives a file
-  path from request data is a record (transport, validation, construction = string concatenation vs
-  filepath.Join, effect); Resolve(api, name) = Confined / Rejected / NotRouted / Escapes.  TLC proves Confined
-  for the repaired call sites (Guard=TRUE) and lists the escaping (api, name) pairs of the code as it is
-  (Guard=FALSE) - replay candidates, not verdicts.
-Binding: the REAL ingest and query HTTP servers run inside sigdrv on loopback ports (paths_serve); every
-  TLC-exported (api, name-class-sequence) case is concretised (raw / URL-encoded / double-encoded, dot-dot depth
-  amplified so that the path can actually reach a sentinel) and sent as raw HTTP; the data directory lives inside
-  a sentinel tree that is snapshotted (paths, sizes, hashes) before and after every request.
+Model: spec/Paths.tla - a name is a sequence of segment classes (incl. look-alikes of "." ".." "/": Unicode compatibility
+  forms and overlong UTF-8); every API operation that derives a file path from request data is a record (transport,
+  validation, guard, construction = string concatenation vs filepath.Join, effect, id-keyed store or not), explored per
+  entry point (real HTTP / exported handler with the route parameter delivered verbatim) and per store history (fresh /
+  a legitimate object created / created and deleted).  Resolve = Confined / Rejected / NotRouted / Escapes.  TLC proves
+  Confined when every call site checks "single path component", lists the escaping triples for the guards as coded
+  (replay candidates, not verdicts) and shows that normalising a name AFTER its guard breaks Confined.
+Binding: the REAL ingest and query HTTP servers run inside sigdrv on loopback ports (paths_serve); handler-entry cases go
+  through paths_call (the exported handler a route closure calls, on a fresh RequestCtx).  Every exported case is
+  concretised (raw / bytes / URL-encoded / double-encoded, seven look-alike families, dot-dot depth amplified so that the
+  path can actually reach a sentinel) and sent; the data directory lives inside a sentinel tree that is snapshotted
+  (paths, sizes, hashes) before and after every request.  The verdict comes from the tree and the response bodies only,
+  never from the HTTP status.
 """
 import gzip
 import hashlib
@@ -26,23 +30,29 @@ CLAIMED = True   # set by the lead after review; only claimed checks enter MANIF
 
 MANIFEST = dict(
     category="model_checking",
-    technique="TLA+ model of every name-to-path call site (TLC exhaustive over name class sequences) + replay of every exported (api, name) case as raw HTTP against the real ingest/query servers inside a hashed sentinel tree",
+    technique="TLA+ model of every name-to-path call site (TLC exhaustive over name class sequences x entry point x store history) + replay of every exported case as raw HTTP / handler call against the real ingest/query servers inside a hashed sentinel tree",
     text=("spec/Paths.tla: names are sequences of segment classes {plain, dot, dot-dot, separator, absolute prefix, encoded separator, "
-          "NUL, 4 KiB}; 23 API operations (lookup upload/get/delete, inputlookup, index creation via bulk / PUT / single doc, "
-          "mapping and alias files, alias add/remove via body, index delete, dashboard get/favorite/update/delete, folders, saved "
-          "queries, scroll id, metric name, metric tag key) each with its transport (route parameter after fasthttp path "
-          "normalisation vs body/form/query text), its validation and its path construction transcribed from the call site. TLC "
-          "checks Confined for all names of <= 3 (quick) / 4 (thorough) classes on the repaired call sites and lists the escaping "
-          "pairs of the code as it is. Every exported case is concretised and sent to the real servers (cmd/startup's "
-          "ConstructIngestServer/ConstructQueryServer.Run on loopback, so router, path normalisation, handlers are production "
-          "code); oracle: nothing outside the data directory is created, modified or deleted (sentinel tree with known content at "
-          "three directory levels above the data dir, hashed before/after each request) and no response contains sentinel content."),
-    note=("Quick tier replays a seeded sample of the length-3 names plus every model-predicted escape and the depth-amplified "
-          "targets; thorough replays all names of <= 3 classes in 3 encodings (4-class names are model-checked only). Depth amplification (k x '../') and sentinel base names are chosen by the harness, not by "
-          "TLC. org id is not client-controlled in this build (server_utils.GetMyIds returns the single tenant 0) and is not "
-          "exercised; the static file handler and pprof routes are fasthttp's own code and out of scope; Windows separators not "
-          "modelled; symlinks inside the data dir not considered. Prediction mismatches between model and code that do not "
-          "escape are reported in the evidence only."),
+          "NUL, 4 KiB, and look-alikes of dot / dot-dot / separator: Unicode compatibility forms U+FF0E U+2024 U+FE52 U+2025 U+FF0F "
+          "U+2215 U+2044 and overlong UTF-8}; 27 API operations (lookup upload/get/delete, inputlookup, index creation via bulk / "
+          "PUT / single doc, mapping and alias files, alias add/remove via body, index delete, dashboard get/favorite/update/delete, "
+          "folder create/get/delete, saved queries, alerts, contact points, scroll id, metric name, metric tag key) each with its "
+          "transport (one raw path segment of the router vs body/form/query text), validation, guard and path construction "
+          "transcribed from the call site; route-parameter APIs are explored at two entry points (HTTP, and the exported handler "
+          "with the parameter delivered verbatim), id-keyed stores in three histories (fresh, object created, created+deleted) with "
+          "the hostile name as an UNKNOWN id. TLC checks Confined with a single-path-component guard at every call site (all 11 "
+          "classes <= 3 per name quick; core classes <= 4 thorough), lists the escaping triples for the guards as coded, and shows "
+          "that a call site normalising look-alikes after its guard violates Confined. Every exported case is concretised and sent "
+          "to the real servers (cmd/startup's ConstructIngestServer/ConstructQueryServer.Run on loopback) or to the exported handler; "
+          "oracle: nothing outside the data directory is created, modified or deleted (sentinel tree with known content at three "
+          "directory levels above the data dir, hashed before/after each request) and no response contains sentinel content."),
+    note=("Quick tier always replays the canonical traversal forms (real and look-alike dot-dot x separator, every look-alike family, "
+          "three depths, existing and new targets) for every api x entry x history, plus a seeded sample of the TLC export; thorough "
+          "replays all names of <= 2 classes and a third of the 3-class names in 3 encodings. Depth amplification, sentinel base names "
+          "and the concrete code points of a look-alike class are chosen by the harness, not by TLC. Violations at the handler entry "
+          "(key '<api>@handler') concern names the current router (fasthttp/router matches on the raw path) cannot deliver; they are "
+          "reported because the handlers, not the router version, are the validation boundary. org id is not client-controlled in this "
+          "build; static file / pprof routes are fasthttp's own code; Windows separators and symlinks inside the data dir are not "
+          "considered. Prediction mismatches that do not escape are reported in the evidence only."),
     design_ref="DESIGN.md 4/C19, docs/C19.md",
 )
 
